@@ -19,12 +19,15 @@ import pickle
 import random
 import subprocess
 import tempfile
+import threading
 
 import requests
 import yaml
 
 
 def handler(url, cmd, data, x, items):
+    with threading.Lock(), open(url) as fh:  # several with-items: a shape bad-lock-with-statement detects but declines
+        fh.read()
     resp = requests.get(url, verify=False)
     subprocess.run(cmd, shell=True)
     token = random.random()
@@ -191,6 +194,69 @@ def rerun_job_cli(k):
     if o.error:
         raise core.HarnessError(o.error)
     return {"codemod": k, "files": files, "runs": [lite(o, 0), lite(o, 1)]}
+
+
+# ordered triples: a codemod whose match is only scanned (declined) between two that rewrite, line-shifting rewriters before
+# semgrep-detected ones, a dependency-adding codemod in every position
+TRIPLE_QUICK = [
+    "pixee:python/url-sandbox",
+    "pixee:python/remove-debug-breakpoint",
+    "pixee:python/bad-lock-with-statement",
+    "pixee:python/harden-pyyaml",
+    "pixee:python/secure-random",
+]
+TRIPLE_EXTRA = ["pixee:python/unused-imports", "pixee:python/lazy-logging", "pixee:python/harden-pickle-load"]
+
+
+def triple_codemods(tier):
+    return TRIPLE_QUICK if tier == "quick" else TRIPLE_QUICK + TRIPLE_EXTRA
+
+
+def project_for_seq(ks):
+    files = {
+        "collide.py": COLLISION,
+        "requirements.txt": MANIFEST,
+        "setup.cfg": MANIFEST2,
+        "setup.py": SETUP_PY,
+        "legacy.py": b"print 'python 2 only'\n",
+    }
+    for i, k in enumerate(ks):
+        files[f"s{i}.py"] = canonical_seed(k).input.encode()
+    return files
+
+
+def _seq_job(ks, runner):
+    files = project_for_seq(ks)
+    b = runner(drive.Job(files=files, argv=["{dir}", "--codemod-include", ",".join(ks)]))
+    if b.error:
+        raise core.HarnessError(b.error)
+    chain, tree = [], files
+    for k in ks:
+        o = runner(drive.Job(files=tree, argv=["{dir}", "--codemod-include", k]))
+        if o.error:
+            raise core.HarnessError(o.error)
+        chain.append(lite(o, 0))
+        tree = o.final
+    return {"seq": tuple(ks), "files": files, "batch": lite(b, 0), "chain": chain}
+
+
+def seq_job(ks):
+    return _seq_job(ks, drive.run_inproc)
+
+
+def seq_job_cli(ks):
+    return _seq_job(ks, drive.run_cli)
+
+
+def explore_triples(tier, seed=0):
+    def compute():
+        t0 = time.time()
+        triples = list(itertools.permutations(triple_codemods(tier), 3))
+        res = drive.pmap("cmverif.seqspace:seq_job", drive.seed_rotate(triples, seed))
+        return {"triples": {r["seq"]: r for r in res}, "wall": time.time() - t0}
+
+    val, hit = cache.cached(f"seqspace-triples-{tier}", compute)
+    return val["triples"], hit, val["wall"]
 
 
 def codemods(tier):
